@@ -404,6 +404,14 @@ def _check_em(case):
                   'sample() modified the arrays it was given: parameters %r -> %r, model output %r -> %r' % (
                       sig_free.tolist(), a_sig.tolist(), ybar.tolist()[:6], a_yb.tolist()[:6]), kind='input_modified')
 
+    with case.clause('em_integer_inputs:' + kind):
+        i_sig = np.maximum(1, np.round(np.abs(sig_free))).astype(int)
+        i_yb = np.maximum(1, np.round(np.abs(ybar))).astype(int)
+        a = np.asarray(em.sample(i_sig.astype(float), i_yb.astype(float), n_samples=3, seed=int(s['seed'])), dtype=float)
+        for label, c in (('int arrays', lambda v: v), ('lists of Python ints', lambda v: v.tolist())):
+            b = np.asarray(em.sample(c(i_sig), c(i_yb), n_samples=3, seed=int(s['seed'])), dtype=float)
+            case.close(b, a, rtol=1e-12, what='seeded samples for whole numbers given as %s vs as floats' % label)
+
     mean, std, skew, kurt = _em_moments(kind, sig, ybar)
 
     def draw(n, seed):
@@ -594,6 +602,15 @@ def _check_pop(case):
         if cv is not None:
             case.true(np.array_equal(cv, cov[0]), 'sample() modified the covariate array it was given',
                       kind='input_modified')
+
+    # whole-number parameters typed as integers give the same seeded samples as the same numbers as floats
+    if cov is None:
+        with case.clause('pop_integer_parameters'):
+            th_i = np.maximum(1, np.round(np.abs(theta))).astype(int)
+            a = np.asarray(m.sample(parameters=th_i.astype(float), n_samples=4, seed=int(s['seed'])), dtype=float)
+            for label, arg in (('an int array', th_i), ('a list of Python ints', th_i.tolist())):
+                b = np.asarray(m.sample(parameters=arg, n_samples=4, seed=int(s['seed'])), dtype=float)
+                case.close(b, a, rtol=1e-12, what='seeded samples for whole-number parameters given as %s vs as floats' % label)
 
     def tests(data):
         x, row = data
